@@ -243,23 +243,24 @@ func oracleC17(label string, m BlockMetadata, live []ghost, tlsf bool) {
 	})
 	verifAssert(label+"/lookup-by-handle", verifAnd(ok, !panicked))
 
-	// set the user data of one allocation (every choice is explored), observe all, restore
+	// set the user data of each allocation in turn, observe all, restore
 	if len(live) > 0 {
 		ok = true
 		panicked = verifCatch(func() {
-			t := verifChoice("setTarget", len(live))
-			fresh := new(int)
-			ok = verifAnd(ok, m.SetAllocationUserData(live[t].h, fresh) == nil)
-			for i := range live {
-				ud, err := m.AllocationUserData(live[i].h)
-				ok = verifAnd(ok, err == nil)
-				if i == t {
-					ok = verifAnd(ok, ud == any(fresh))
-				} else {
-					ok = verifAnd(ok, ud == any(live[i].ud))
+			for t := range live {
+				fresh := new(int)
+				ok = verifAnd(ok, m.SetAllocationUserData(live[t].h, fresh) == nil)
+				for i := range live {
+					ud, err := m.AllocationUserData(live[i].h)
+					ok = verifAnd(ok, err == nil)
+					if i == t {
+						ok = verifAnd(ok, ud == any(fresh))
+					} else {
+						ok = verifAnd(ok, ud == any(live[i].ud))
+					}
 				}
+				ok = verifAnd(ok, m.SetAllocationUserData(live[t].h, live[t].ud) == nil)
 			}
-			ok = verifAnd(ok, m.SetAllocationUserData(live[t].h, live[t].ud) == nil)
 		})
 		verifAssert(label+"/set-user-data-affects-only-target", verifAnd(ok, !panicked))
 	}
